@@ -92,4 +92,4 @@ package model
 // the constructors seal)
 //@   ghost ue := zero("error")
 //@   at call Unmarshal: after ghost ue := result
-//@   ensures-local r != nil ==> result == ue
+//@   ensures-local r != nil ==> (result == nil <==> ue == nil) && (result != nil ==> result == ue)
